@@ -107,6 +107,35 @@ fn field_names(d: &mut D, n: usize, id: usize) -> Vec<String> {
     out
 }
 
+/// Turn one field into a `#[darling(flatten)]` field (one time in three): into an earlier struct receiver
+/// (possibly boxed) or a string map; options that conflict with flatten are cleared.
+fn maybe_flatten(d: &mut D, fields: &mut Vec<Field>, structs: &[usize]) {
+    if fields.is_empty() || !d.ratio(1, 3) {
+        return;
+    }
+    let j = d.below(fields.len());
+    let ty = if !structs.is_empty() && d.ratio(2, 3) {
+        let k = *d.pick(structs);
+        if d.bool() {
+            Ty::Boxed(Box::new(Ty::Recv(k)))
+        } else {
+            Ty::Recv(k)
+        }
+    } else {
+        Ty::Map(Box::new(d.pick(&[Ty::U8, Ty::Str]).clone()))
+    };
+    let f = &mut fields[j];
+    f.ty = ty;
+    f.flatten = true;
+    f.rename = None;
+    f.skip = false;
+    f.multiple = false;
+    f.with = Call::None;
+    f.transform = Tr::None;
+    f.default = Dflt::None;
+    // a flatten field swallows every unknown name, so allow_unknown_fields is moot
+}
+
 pub fn gen_struct(d: &mut D, id: usize, tr: Trait, structs: &[usize], enums: &[usize], specs: &[Spec]) -> Spec {
     let mut c = Container::default();
     if d.ratio(1, 2) {
@@ -123,36 +152,26 @@ pub fn gen_struct(d: &mut D, id: usize, tr: Trait, structs: &[usize], enums: &[u
         .map(|(j, nm)| gen_field(d, nm, id, j, structs, enums, true, false))
         .collect();
     // flatten: one field at most, into an earlier struct receiver or a map; incompatible options cleared
-    let flat_targets: Vec<usize> = structs
-        .iter()
-        .cloned()
-        .filter(|k| specs.iter().find(|s| s.id == *k).map(|s| s.container.from_word == Call::None || true).unwrap_or(false))
-        .collect();
-    if !fields.is_empty() && d.ratio(1, 3) {
-        let j = d.below(fields.len());
-        let ty = if !flat_targets.is_empty() && d.ratio(2, 3) {
-            let k = *d.pick(&flat_targets);
-            if d.bool() {
-                Ty::Boxed(Box::new(Ty::Recv(k)))
-            } else {
-                Ty::Recv(k)
-            }
-        } else {
-            Ty::Map(Box::new(d.pick(&[Ty::U8, Ty::Str]).clone()))
-        };
-        let f = &mut fields[j];
-        f.ty = ty;
-        f.flatten = true;
-        f.rename = None;
-        f.skip = false;
-        f.multiple = false;
-        f.with = Call::None;
-        f.transform = Tr::None;
-        f.default = Dflt::None;
-        // a flatten field swallows every unknown name, so allow_unknown_fields is moot
-    }
+    maybe_flatten(d, &mut fields, structs);
     if crate::model::container_tag_field(&fields).is_some() {
         c.transform = *d.pick(&[Tr::None, Tr::None, Tr::Map, Tr::AndThen]);
+    }
+    // an element-level receiver may call an ordinary field by a name that is magic for *another* trait only
+    // (`vis` in a FromVariant receiver is just a field); element-level receivers are never flatten targets, so the
+    // name need not be globally unique
+    if tr != Trait::FromMeta && d.ratio(1, 4) {
+        let foreign: &[&str] = match tr {
+            Trait::FromDeriveInput => &["ty", "bounds", "discriminant", "fields"],
+            Trait::FromField => &["generics", "data", "bounds", "discriminant", "fields"],
+            Trait::FromVariant => &["vis", "ty", "generics", "data", "bounds"],
+            Trait::FromTypeParam => &["vis", "ty", "generics", "data", "discriminant", "fields"],
+            _ => &["vis", "ty", "generics", "data", "bounds", "discriminant", "fields"],
+        };
+        let cands: Vec<usize> = (0..fields.len()).filter(|j| !fields[*j].flatten).collect();
+        if !cands.is_empty() {
+            let j = cands[d.below(cands.len())];
+            fields[j].rust_name = d.pick(foreign).to_string();
+        }
     }
     fix_inexpressible(&mut fields, &c, id);
     if tr == Trait::FromMeta {
@@ -233,6 +252,8 @@ pub fn gen_enum(d: &mut D, id: usize, structs: &[usize], enums: &[usize]) -> Spe
                             f
                         })
                         .collect();
+                    // (a struct variant is a struct receiver: it may flatten too)
+                    maybe_flatten(d, &mut fs, structs);
                     let pseudo = Container { rename_all: c.rename_all.clone(), ..Default::default() };
                     fix_inexpressible(&mut fs, &pseudo, id * 100 + i);
                     VShape::Struct(fs)
@@ -707,7 +728,12 @@ pub fn gen_field_items(w: &World, fs: &[Field], c: &Container, d: &mut D, mode: 
         let name = if !real.is_empty() && d.bool() {
             let r = d.pick(&real).clone();
             let bare = r.replace("::", "_").replace("r#", "");
-            format!("{}x", bare)
+            // close to a real name, or a longer path that merely ends / starts with a real name
+            match d.below(4) {
+                0 if !r.starts_with("::") => format!("x::{}", r),
+                1 => format!("{}::x", r),
+                _ => format!("{}x", bare),
+            }
         } else {
             format!("unk{}", d.below(9))
         };
@@ -781,6 +807,8 @@ fn good_value_with_mistakes(w: &World, ty: &Ty, d: &mut D, depth: usize, st: &mu
 pub const HOSTILE: &[&str] = &[
     "e", "i", "x", "len", "errors", "default", "skip", "map", "with", "multiple", "flatten", "rename", "ident_", "item", "items", "lit",
     "value", "input", "r#type", "r#fn", "r#match", "attr", "attrs_", "data_", "field", "name", "path", "err", "result", "val", "r#mod", "body", "meta", "inner", "nested",
+    // names that are magic for some trait (where they are magic for the receiver's own trait an underscore is appended)
+    "ident", "attrs", "vis", "ty", "data", "generics", "bounds", "discriminant", "fields",
 ];
 
 /// Replace field names by names that collide with darling's option words, with plausible locals of
